@@ -171,12 +171,10 @@ func c07(c *core.Ctx) {
 				}
 				for _, pr := range [][2]ssa.Value{{bo.X, bo.Y}, {bo.Y, bo.X}} {
 					k, isK := ssax.ConstInt(pr[0])
-					call, isCall := ssax.Strip(pr[1]).(*ssa.Call)
-					if isK && isCall {
-						if cal := ssax.Callee(call); cal != nil && cal.Name() == "Len" {
-							found = true
-							ci("C07.consts", fname(f)+"·headerLength base", k, l.header, bo, "offset of the security header")
-						}
+					// the other operand is securityHeader.Len(), directly or as a variable assigned in both branches
+					if isK && secHeaderLen(pr[1], 0) && !found {
+						found = true
+						ci("C07.consts", fname(f)+"·headerLength base", k, l.header, bo, "offset of the security header")
 					}
 				}
 			}
@@ -442,8 +440,48 @@ func c07(c *core.Ctx) {
 			return strings.Join(s, " && ")
 		}
 		ea, da := atoms(enc, sign), atoms(dec, verify)
-		// the sender has an extra leading `SecurityMode != None` early return; drop atoms that only one side has and that are the None carve-out
-		c.Ob("C07.lockstep", "uasc·encrypt condition == decrypt condition", c.P.Pos(sign.Pos()), enc != nil && dec != nil && sameModuloNone(ea, da), "signAndEncrypt encrypts under ["+ea+"]; verifyAndDecrypt decrypts under ["+da+"]")
+		// decided semantically: for every (SecurityMode ∈ {Sign, SignAndEncrypt}) × (asymmetric header present or
+		// not), Encrypt is reachable in signAndEncrypt exactly when Decrypt is reachable in verifyAndDecrypt — however
+		// the two conditions are written (hoisted into variables, De Morgan, switch)
+		cfgModeF := field(c, "uasc", "Config", "SecurityMode")
+		asymHdrF1 := field(c, "uasc", "MessageHeader", "AsymmetricSecurityHeader")
+		mSign, mSE := enumConst(c, "ua", "MessageSecurityModeSign"), enumConst(c, "ua", "MessageSecurityModeSignAndEncrypt")
+		agree := enc != nil && dec != nil && cfgModeF != nil && mSign != nil && mSE != nil
+		var table []string
+		if agree {
+			for _, mode := range []int64{*mSign, *mSE} {
+				for _, asym := range []bool{false, true} {
+					leaf := func(v ssa.Value) (bool, bool) {
+						bo, ok := ssax.Strip(v).(*ssa.BinOp)
+						if !ok || (bo.Op != token.EQL && bo.Op != token.NEQ) {
+							return false, false
+						}
+						x, y := bo.X, bo.Y
+						if _, isK := ssax.Strip(x).(*ssa.Const); isK {
+							x, y = y, x
+						}
+						fl := loadedField(x).f
+						switch {
+						case fl == cfgModeF:
+							if k, isK := ssax.ConstInt(y); isK {
+								return (k == mode) == (bo.Op == token.EQL), true
+							}
+						case fl != nil && fl == asymHdrF1 && ssax.IsNil(y):
+							return (!asym) == (bo.Op == token.EQL), true
+						}
+						return false, false
+					}
+					e := ssax.GuidedReach(sign, enc, leaf)
+					d := ssax.GuidedReach(verify, dec, leaf)
+					table = append(table, "mode="+fmtInt(int(mode))+" asym="+boolStr(asym)+": encrypt="+boolStr(e)+" decrypt="+boolStr(d))
+					if e != d {
+						agree = false
+					}
+				}
+			}
+		}
+		_, _ = ea, da
+		c.Ob("C07.lockstep", "uasc·encrypt condition == decrypt condition", c.P.Pos(sign.Pos()), agree, strings.Join(table, "; "))
 		// extra padding
 		sRemote, vOwn := false, false
 		allCmpsH := func(f *ssa.Function) []ssax.Cmp {
@@ -570,7 +608,7 @@ func c08(c *core.Ctx) {
 					if denotes(call.Call.Args[1], result(sig, 0)) && ssax.Dominates(sig, call) && ssax.Dominates(call, enc) {
 						appended = true
 						// Encrypt(p) with p = appended[headerLength:]
-						if sl, isSl := ssax.Strip(enc.Common().Args[1]).(*ssa.Slice); isSl && ssax.Strip(sl.X) == ssa.Value(call) && sl.Low != nil && strings.Contains(ssax.Path(sl.Low), "headerLength") {
+						if sl, isSl := ssax.Strip(enc.Common().Args[1]).(*ssa.Slice); isSl && ssax.Strip(sl.X) == ssa.Value(call) && sl.Low != nil && headerLenLike(sl.Low, int64(12)) {
 							regionOK = true
 						}
 					}
@@ -593,7 +631,7 @@ func c08(c *core.Ctx) {
 		c.Ob("C08.order", fname(verify)+"·decrypt before verify", c.P.Pos(verify.Pos()), before, "Decrypt is never reached after VerifySignature: "+boolStr(before))
 		regionOK := false
 		if dec != nil {
-			if sl, isSl := ssax.Strip(dec.Common().Args[1]).(*ssa.Slice); isSl && sl.Low != nil && strings.Contains(ssax.Path(sl.Low), "headerLength") && sl.High == nil {
+			if sl, isSl := ssax.Strip(dec.Common().Args[1]).(*ssa.Slice); isSl && sl.Low != nil && headerLenLike(sl.Low, int64(12)) && sl.High == nil {
 				regionOK = true
 			}
 		}
@@ -608,4 +646,64 @@ func c08(c *core.Ctx) {
 		}
 		c.Ob("C08.order", fname(verify)+"·message = b[:n-sig], signature = b[n-sig:]", c.P.Pos(verify.Pos()), shape, "VerifySignature(b[:cut], b[cut:]) with one cut point: "+boolStr(shape))
 	}
+}
+
+// secHeaderLen: v is a call of a Len method (of a security header), or a phi all of whose edges are — possibly plus a
+// constant initial value that is overwritten on every path (headerLength := 12; if … { headerLength += X.Len() }).
+func secHeaderLen(v ssa.Value, d int) bool {
+	v = ssax.Strip(v)
+	if d > 4 {
+		return false
+	}
+	switch x := v.(type) {
+	case *ssa.Call:
+		cal := ssax.Callee(x)
+		return cal != nil && cal.Name() == "Len"
+	case *ssa.Phi:
+		for _, e := range x.Edges {
+			if !secHeaderLen(e, d+1) {
+				return false
+			}
+		}
+		return len(x.Edges) > 0
+	}
+	return false
+}
+
+// headerLenLike: v is computed from the message-header constant k and a security header's Len() (through additions and
+// phis): the offset at which the encrypted region of a chunk starts, whatever the variable is called.
+func headerLenLike(v ssa.Value, k int64) bool {
+	hasK, hasLen := false, false
+	seen := map[ssa.Value]bool{}
+	var walk func(v ssa.Value, d int)
+	walk = func(v ssa.Value, d int) {
+		v = ssax.Strip(v)
+		if v == nil || seen[v] || d > 8 {
+			return
+		}
+		seen[v] = true
+		if c, ok := ssax.ConstInt(v); ok {
+			if c == k {
+				hasK = true
+			}
+			return
+		}
+		switch x := v.(type) {
+		case *ssa.Call:
+			if cal := ssax.Callee(x); cal != nil && cal.Name() == "Len" {
+				hasLen = true
+			}
+		case *ssa.BinOp:
+			if x.Op == token.ADD {
+				walk(x.X, d+1)
+				walk(x.Y, d+1)
+			}
+		case *ssa.Phi:
+			for _, e := range x.Edges {
+				walk(e, d+1)
+			}
+		}
+	}
+	walk(v, 0)
+	return hasK && hasLen
 }
